@@ -691,6 +691,45 @@ pub fn plan_for(property: &str, seed: u64) -> Plan {
             plan.time_cap_us = plan.time_cap_us.min(60_000_000);
             plan
         }
+        "C13" => {
+            let p = Profile {
+                max_conns: 3,
+                max_streams: 4,
+                max_stream_bytes: 60_000,
+                fault_rates_permille: &[0, 20, 50, 150],
+                corrupting: false,
+                ..Default::default()
+            };
+            let mut plan = base_plan(seed, property, "c13.cids", &mut r, &p);
+            // long-lived connections: ids expire (lifetime >= 60 s is the provider's minimum),
+            // handshake ids are rotated, clients are rebound by a NAT, limits from 2 upward
+            for e in [&mut plan.cfg.server, &mut plan.cfg.client] {
+                e.cid_lifetime_ms = r.pick(&[None, Some(60_000u64), Some(61_000), Some(75_000), Some(120_000)]);
+                e.rotate_handshake_cid = r.chance(2, 3);
+                e.limits.max_active_cids = r.pick(&[2u64, 2, 3, 4, 5, 8]);
+                e.limits.idle_timeout_ms = r.pick(&[10_000u64, 30_000, 60_000]);
+                e.limits.migration = true;
+                if e.cid_len == 0 {
+                    e.cid_len = 8;
+                }
+            }
+            let horizon = r.pick(&[5_000_000u64, 70_000_000, 140_000_000, 260_000_000]);
+            for c in plan.conns.iter_mut() {
+                c.keep_alive = true;
+                c.close = CloseSpec::AfterAll { by: if r.chance(1, 2) { Role::Client } else { Role::Server }, code: 7 };
+                for s in c.streams.iter_mut() {
+                    s.open_delay_us = r.below(horizon + 1);
+                }
+                let n = r.pick(&[0u64, 1, 1, 2, 3, 5]);
+                let mut t: Vec<u64> = (0..n).map(|_| r.below(horizon + 1)).collect();
+                t.sort();
+                c.rebinds = t;
+            }
+            let end = horizon;
+            plan.faults_end_us = Some(end);
+            plan.time_cap_us += end + 120_000_000;
+            plan
+        }
         "C12" => {
             let p = Profile {
                 allow_reset: true,
